@@ -378,7 +378,7 @@ def run_shard(ctx):
     pool = ALPHA * 2 + ['b', 'Z', '0', '/', '*', '\t', '漢', '🙂', 'ß', '.', ',', '(', ')', '`', '@', '?', ' ']
     for _ in range(200 if ctx.tier == 'quick' else 3000):
         values.append(''.join(r.choice(pool) for _ in range(r.randint(3, 30 if r.random() < 0.2 else 8))))
-    typed = [0, 1, -1, 7, 2 ** 31, 2 ** 63, -2 ** 63 - 1, 10 ** 30, 0.5, -0.5, 1.0, 1e-7, 1e21, 3.141592653589793, 123456789.123456789,
+    typed = [0, 1, -1, 7, 0.0, -0.0, 2 ** 31, 2 ** 63, -2 ** 63 - 1, 10 ** 30, 0.5, -0.5, 1.0, 1e-7, 1e21, 3.141592653589793, 123456789.123456789,
              True, False, None, dt.date(2020, 1, 31), dt.datetime(2020, 1, 31, 23, 59, 58), dt.datetime(1999, 12, 31, 0, 0, 0, 123456)]
     for _ in range(40 if ctx.tier == 'quick' else 600):
         typed.append(r.choice([r.randint(-10 ** 12, 10 ** 12), r.uniform(-1e6, 1e6), r.uniform(-1, 1) * 10 ** r.randint(-12, 18)]))
@@ -525,6 +525,41 @@ def run_sequences(ctx, idx):
                         acc.fail({'output': output, 'failure': 'literal-depends-on-earlier-equal-valued-constant', 'value_class': shape},
                                  {'sequence': repr(seq[:k + 1] if shape == 'one-per-statement' else seq), 'rendered': g[:300], 'fresh_renderer_gives': w[:300]})
                         break
+    # the tree's own printers: each statement class writes its cells itself - the same constants side by side in one SELECT list, one
+    # INSERT row, several INSERT rows, one IN list, one UPDATE; every cell must be the text the constant prints alone
+    for rot in range(len(EQUAL_VALUED)):
+        idx += 1
+        if not ctx.mine(idx):
+            continue
+        seq = EQUAL_VALUED[rot:] + EQUAL_VALUED[:rot]
+        alone = [A.Constant(v).to_string() for v in seq]
+        shapes = {
+            'select-list': (A.Select(targets=[A.Constant(v) for v in seq]), 'SELECT ' + ', '.join(alone)),
+            'insert-row': (A.Insert(table=A.Identifier('t'), columns=[A.Identifier(f'c{i}') for i in range(len(seq))], values=[[A.Constant(v) for v in seq]]), None),
+            'insert-rows': (A.Insert(table=A.Identifier('t'), columns=[A.Identifier('c')], values=[[A.Constant(v)] for v in seq]), None),
+            'in-list': (A.Select(targets=[A.Star()], from_table=A.Identifier('t'), where=A.BinaryOperation('in', args=[A.Identifier('a'), A.Tuple([A.Constant(v) for v in seq])])), None),
+            'update': (A.Update(table=A.Identifier('t'), update_columns={f'c{i}': A.Constant(v) for i, v in enumerate(seq)}), None),
+        }
+        for shape, (tree, _) in shapes.items():
+            acc.ev()
+            acc.count('equal_valued_sequences')
+            acc.key('equal-valued', 'to_string', rot, shape)
+            try:
+                text = tree.to_string()
+            except Exception as e:
+                acc.count('equal_valued_render_raised:' + type(e).__name__)
+                continue
+            # the cells in order: every alone-text must occur, in sequence, each after the previous one
+            pos, ok = 0, True
+            for a_ in alone:
+                j = text.find(a_, pos)
+                if j < 0:
+                    ok = False
+                    break
+                pos = j + len(a_)
+            if not ok:
+                acc.fail({'output': 'to_string', 'failure': 'literal-depends-on-earlier-equal-valued-constant', 'value_class': shape},
+                         {'sequence': repr(seq), 'rendered': text[:400], 'cells_alone': alone})
     return idx
 
 
